@@ -211,7 +211,7 @@ class History:
 
     OPS = ['ctor_vec', 'ctor_ang', 'ctor_mat', 'from_str', 'with_axes', 'set_vec', 'set_ang', 'iop_vec', 'imul_ang',
            'imatmul', 'matmul', 'transform_vec', 'transform_ang', 'to_angle', 'vec_to_angle', 'from_basis', 'arith',
-           'copies', 'freeze_thaw', 'text', 'mat_ops', 'ang_mul', 'rotate_legacy', 'set_mat', 'tiny_rot']
+           'copies', 'freeze_thaw', 'text', 'mat_ops', 'ang_mul', 'rotate_legacy', 'set_mat', 'tiny_rot', 'gimbal_cancel']
 
     def op_ctor_vec(self):
         sm, rng = self.sm, self.rng
@@ -589,6 +589,38 @@ class History:
             with res.transform() as t:
                 t @= m
         self.log.append(f'tiny rotation {axis}={base}+{eps} via path {how} -> {self.raw(res)}')
+        self.add(res)
+
+
+    def op_gimbal_cancel(self):
+        """Straight-up/down orientations whose yaw (or remaining angle) cancels to float noise around zero:
+        the gimbal branch of the matrix->angle conversion sees tiny negative values only along such compositions."""
+        sm, rng = self.sm, self.rng
+        pitch = rng.choice((90.0, 270.0, -90.0, 90.0 + rng.choice((0.0, 1e-9, -1e-9, 1e-5, -1e-5))))
+        y = rng.choice((45.0, 90.0, 30.0, 123.456, 270.0, rng.uniform(0, 360)))
+        r = rng.choice((0.0, 0.0, 10.0, rng.uniform(0, 360)))
+        a = rng.choice((sm.Angle, sm.FrozenAngle))(pitch, y, r)
+        how = rng.randrange(6)
+        self.flags['mat2ang'] = True
+        if how == 0:
+            res = a @ sm.Angle(0, -y, 0)
+        elif how == 1:
+            res = a @ sm.Matrix.from_yaw(360.0 - y)
+        elif how == 2:
+            res = sm.Angle(pitch, y, r)
+            res @= sm.FrozenMatrix.from_yaw(-y)
+        elif how == 3:
+            m = sm.Matrix.from_angle(a)
+            m @= sm.Matrix.from_yaw(-y)
+            res = m.to_angle()
+        elif how == 4:
+            m = sm.Matrix.from_angle(a) @ sm.Matrix.from_yaw(-y)
+            res = sm.Angle.from_basis(x=m.forward(), y=m.left())
+        else:
+            res = sm.Angle(pitch, y, r)
+            with res.transform() as t:
+                t @= sm.Angle(0, -y, 0)
+        self.log.append(f'gimbal cancel pitch={pitch} yaw={y} roll={r} via path {how} -> {self.raw(res)}')
         self.add(res)
 
 
